@@ -135,6 +135,11 @@ func takeSnap(o object.PanObject, depth int) *snap {
 			n.kids = append(n.kids, takeSnap(p.Key, depth+1), takeSnap(p.Value, depth+1))
 		}
 		n.i = int64(len(*v.Pairs))
+	case *object.PanFunc:
+		// a function value's own scope is part of the value: calling it must not leave anything there
+		if v.Env != nil {
+			n.i = int64(len(v.Env.Store))
+		}
 	case *object.PanErrWrapper:
 		n.s = string(v.ErrKind) + ": " + v.Msg
 	case *object.PanErr:
@@ -336,6 +341,10 @@ var c06Captures = []string{
 	`%{1: x1, 2: x2, 3: x3}$([]){|p| p[0] + [p]}@{|q| q[1][1]}`,
 	`it := a._iter; [[it.next], [it.next], [it.next]]@{|q| q[0]}`,
 	`a$([]){|acc, x| acc + [[acc.len, x]]}@{|q| q[1]}`,
+	// the keyword-argument object of one chain call, kept by an earlier step, is not changed when a
+	// later step binds its own default keyword parameters
+	`keep := {|x| \_}; other := {|x, opt: 1| x}; r := [keep, other]@call(0, a: x1); ([r[0].a, x2, x3] if r[0].keys == ["a"] else r[0].keys)`,
+	`keepm := {go: m{|| \_}}; otherm := {go: m{|opt: 1| opt}}; r := [keepm, otherm]@go(a: x1); ([r[0].a, x2, x3] if r[0].keys == ["a"] else r[0].keys)`,
 }
 
 func H_C06_capture() {
